@@ -40,9 +40,9 @@ def desiredKVs (t : T) : List (Nat × Val) :=
 def dataplaneKVs (t : T) : List (Nat × Val) := t.dd ++ t.dn
 
 def dump (t : T) : String :=
-  let sync := t.dn.length == 0 && t.du.length == 0
+  let sync := t.inSync
   s!"D[{showKVs (desiredKVs t)}] P[{showKVs (dataplaneKVs t)}] U[{showKVs t.du}] X[{showKVs t.dn}] " ++
-  s!"dl={t.dlen} pl={t.dn.length + t.dd.length} ul={t.du.length} xl={t.dn.length} sync={showBool sync}"
+  s!"dl={t.desiredLen} pl={t.dataplaneLen} ul={t.pendingUpdatesLen} xl={t.pendingDeletionsLen} sync={showBool sync}"
 
 def parseNats (ws : List String) : Option (List Nat) := ws.mapM String.toNat?
 
